@@ -12,16 +12,26 @@ Program recipe (plain JSON)
      "ret": [root ref], "vis": "public"|"none", "a2g": 0|1, "dead": 0|1, "plain": 0|1,
      "trips": [[trip count per loop], [..]]}
     path = {"sv": tile number 0..3 | "iv", "casts": [["ms", "L1"|"L3"] | ["lc", layout number | -1]], "def": "top"|"epoch"|"stmt"}
-    stmt = ["op", kind, [input root refs], [output root refs]] | ["for", [stmt]]
+    stmt = ["op", kind, [input refs], [output root refs]] | ["for", [stmt]]
            kind: "linalg_lib" | "linalg" | "dart_op" | "dart_sched" | "test"
+           input ref: root number (read through the epoch's path A of that root) | ["alt", root number, variant] (read-only
+           access through ANOTHER path B of the root, made right in front of the op: a (tile / full-size) subview of the root
+           with 0-2 casts of its own, a cast chained on the end of path A, or the bare root, which set-memory-space gives its
+           own cast). An alt ref is honoured only where it is sound, otherwise it means the plain root ref (see below).
 A root of kind big has 4x the operand shape in dimension 0 and is only used through a subview (tile `sv`; "iv" = tile number is
 the induction variable of the enclosing loop, trip counts are <= 3).
 
 Precondition kept by construction (DESIGN C12): an *epoch* fixes ONE access path per root (the root itself, a subview, or the
 end of a cast chain over it) and every op of the epoch reaches the root through that path only. Cast ops of a path are placed at
 the function top ("top"), at the epoch start ("epoch") or in front of / at the top of the loop body of each statement ("stmt").
-So the spans first user .. last user of two different cast buffers of one root never overlap, and the root is never accessed
-directly while a cast buffer of it is in use.
+So the spans first WRITER-relevant use .. last writer of two different cast buffers of one root never overlap, and the root is
+never written, nor read before the write-back, through another path while a cast buffer of it holds newer data.
+Relaxation (read-only sharing): once the last writer through path A has run - it sits in an EARLIER top-level statement than
+the alt read, over the whole life of A's SSA value: the epoch, or the whole program when A is the bare root, whose L1 cast
+set-memory-space shares between all users - the original is up to date again, so reads through a fresh path B may be
+interleaved with later reads through A in any order, also inside loops. B is never written (an op that would end up as an
+opaque test.op drops its alt refs), B's value is made for that one op, and the bare root is used as B at most once per
+program (all bare users share one cast that is filled once).
 """
 from __future__ import annotations
 
@@ -172,7 +182,39 @@ def _op(draw, nroots):
     nout = draw(st.sampled_from([0, 1, 1, 1, 2]))
     if nin + nout == 0:
         nout = 1
-    return ["op", kind, [draw(st.integers(0, nroots - 1)) for _ in range(nin)], [draw(st.integers(0, nroots - 1)) for _ in range(nout)]]
+    ins = []
+    for _ in range(nin):
+        v = draw(st.integers(0, nroots - 1))
+        if draw(st.integers(0, 3)) == 0:
+            ins.append(["alt", v, draw(st.integers(0, 35))])
+        else:
+            ins.append(v)
+    return ["op", kind, ins, [draw(st.integers(0, nroots - 1)) for _ in range(nout)]]
+
+
+@st.composite
+def _wra_stmts(draw, nroots):
+    """Template: a writer of root i through path A, then a read through another path and a read through A (both orders),
+    each optionally inside a loop, optionally both in one loop."""
+    i = draw(st.integers(0, nroots - 1))
+    j = draw(st.integers(0, nroots - 1))
+    acc = ["linalg_lib", "linalg", "dart_op", "dart_sched"]
+    w = ["op", draw(st.sampled_from(acc)), [j] if (j != i and draw(st.booleans())) else [], [i]]
+    outs = [j] if j != i and draw(st.booleans()) else []
+    rb = ["op", draw(st.sampled_from(acc)), [["alt", i, draw(st.integers(0, 35))]], outs]
+    ra = ["op", draw(st.sampled_from(acc)), [i], [j] if j != i and draw(st.booleans()) else []]
+    pair = [rb, ra] if draw(st.booleans()) else [ra, rb]
+    shape_ = draw(st.sampled_from(["flat", "flat", "loop-each", "loop-both", "loop-first"]))
+    if shape_ == "loop-each":
+        pair = [["for", [pair[0]]], ["for", [pair[1]]]]
+    elif shape_ == "loop-both":
+        pair = [["for", pair]]
+    elif shape_ == "loop-first":
+        pair = [["for", [pair[0]]], pair[1]]
+    if draw(st.integers(0, 3)) == 0:
+        w = ["for", [w]]
+    mid = [draw(_op(nroots))] if draw(st.integers(0, 3)) == 0 else []
+    return [w] + mid + pair
 
 
 @st.composite
@@ -208,7 +250,10 @@ def program(draw, tier="quick", mode=None):
     epochs = []
     for _ in range(nep):
         paths = [draw(_path(nlay, explicit)) for _ in range(nroots)]
-        stmts = draw(_stmts(nroots, 2 if tier == "thorough" else 1, 3))
+        if draw(st.integers(0, 3)) == 0:
+            stmts = draw(_wra_stmts(nroots))
+        else:
+            stmts = draw(_stmts(nroots, 2 if tier == "thorough" else 1, 3))
         epochs.append(dict(paths=paths, stmts=stmts))
     nloops = sum(count_loops(e["stmts"]) for e in epochs)
     trips = [[draw(st.sampled_from([0, 1, 2, 3])) for _ in range(nloops)] for _ in range(2)]
@@ -234,6 +279,8 @@ class Built:
         self.shared_rw = False  # one cast value used by a reader and by a writer
         self.shared_multi = False  # one cast value used by >= 2 ops
         self.global_names: list[str] = []
+        self.alt_reads = 0  # honoured reads through another path
+        self.alt_between = 0  # ... that lie after a writer through path A and not after the last reader through A
 
 
 def _identity_map(rank):
@@ -329,8 +376,8 @@ def build(r) -> Built:
                 if casts_of(i, ep["paths"][i % len(ep["paths"])]):
                     needs_fresh[i] = True
 
-    def emit_path(i, path, out, pad, iv):
-        """Emit subview + casts of root i; returns (ssa, type text, number of casts, memory space)."""
+    def emit_path(i, path, out, pad, iv, force_full=False):
+        """Emit subview + casts of root i; returns (ssa, type text, number of casts, memory space, layout text)."""
         nm, rshape, sp = root_val[i]
         layout = None
         if nm is None:
@@ -339,7 +386,7 @@ def build(r) -> Built:
         cur = nm
         casts = casts_of(i, path)
         oshape = (["?"] + list(shape[1:])) if is_dyn(i) else shape
-        if not roots[i].get("big") and needs_fresh[i] and not casts:
+        if not roots[i].get("big") and (force_full or (needs_fresh[i] and not casts)):
             strides_txt = ", ".join(str(math.prod(rshape[d + 1:])) for d in range(rank))
             layout = f"strided<[{strides_txt}], offset: 0>"
             new = fresh("s")
@@ -393,28 +440,200 @@ def build(r) -> Built:
                 cur, cur_t, layout, sp = new, new_t, nl, nsp
                 nc += 1
                 b.features.add("cast:" + c[0])
-        return cur, cur_t, nc, sp
+        return cur, cur_t, nc, sp, layout
+
+    def ref_root(x):
+        return (x[1] if isinstance(x, list) else x) % nroots
 
     def used_roots(stmts):
         s = set()
         for x in stmts:
             if x[0] == "op":
-                s.update(v % nroots for v in x[2] + x[3])
+                s.update(ref_root(v) for v in x[2] + x[3])
             else:
                 s |= used_roots(x[1])
         return s
 
-    def emit_op(s, vals, out, pad, in_loop):
-        _, kind, ins, outs = s
-        iv_ = [vals[v % nroots][:3] for v in ins]
-        ov_ = [vals[v % nroots][:3] for v in outs]
-        if any(vals[v % nroots][3] != "L1" for v in ins + outs):
-            # set-memory-space gives linalg.generic / dart.operation operands an L1 cast and leaves other ops alone. To keep ONE
-            # access path per buffer, all ops that consume a value outside L1 are of one class per program (recipe.plain).
+    # ---- static facts about path A of every (epoch, root): final memory space, is it the bare root, how long its value lives
+    def path_info(i, path):
+        sp = root_val[i][2]
+        cs = casts_of(i, path)
+        for c in cs:
+            if c[0] == "ms":
+                sp = c[1]
+        bare = not roots[i].get("big") and root_val[i][0] is not None and not cs and not needs_fresh[i]
+        life = "prog" if bare else ("stmt" if path.get("def") == "stmt" else "epoch")
+        return dict(space=sp, bare=bare, life=life)
+
+    pinfo = [[path_info(i, ep["paths"][i % len(ep["paths"])]) for i in range(nroots)] for ep in r["epochs"]]
+
+    def coerce(kind, spaces):
+        # set-memory-space gives linalg.generic / dart.operation operands an L1 cast and leaves other ops alone. To keep the
+        # access paths under the generator's control, all ops that consume a value outside L1 are of one class per program.
+        if any(sp != "L1" for sp in spaces):
             if r.get("plain"):
-                kind = {"linalg": "test", "linalg_lib": "test", "dart_op": "dart_sched"}.get(kind, kind)
+                return {"linalg": "test", "linalg_lib": "test", "dart_op": "dart_sched"}.get(kind, kind)
+            return {"test": "linalg", "dart_sched": "dart_op"}.get(kind, kind)
+        return kind
+
+    # set-memory-space does not give the bare root a cast of its own if an explicit L1 cast of it is in reach (any epoch): it
+    # reuses that cast, so the read would go through another epoch's cast buffer. (With a chain of >= 3 casts
+    # realize-memref-casts also leaves the cast in the middle dead IN PLACE and counts it as a reading and writing user of the
+    # first one.) The bare root is not used as the other path for such roots.
+    l1_chain_on_root = [False] * nroots
+    for ep in r["epochs"]:
+        for i in range(nroots):
+            cs = casts_of(i, ep["paths"][i % len(ep["paths"])])
+            if cs and cs[0] == ["ms", "L1"] and not roots[i].get("big"):
+                l1_chain_on_root[i] = True
+
+    def alt_plan(e, i, variant):
+        """How ["alt", i, variant] is realised in epoch e: dict(how, casts, space) or None (not expressible here)."""
+        info = pinfo[e][i]
+        rsp = root_val[i][2]
+        how = ["sub", "chain", "bare"][variant % 3]
+        v2 = variant // 3
+        k = v2 // 4
+        if how == "bare" and not (explicit and needs_fresh[i] and not roots[i].get("big") and not (r.get("dead") and i == 0)
+                                  and not l1_chain_on_root[i]):
+            how = "sub"
+        if how == "chain" and not (explicit and info["life"] == "epoch"):
+            how = "sub"
+        if how == "sub" and is_dyn(i):
+            how = "chain" if explicit and info["life"] == "epoch" else None
+        if how is None:
+            return None
+        if how == "bare":
+            return dict(how=how, casts=[], space=rsp)
+        if how == "sub":
+            cs = [[], [["ms", "L1"]], [["lc", k - 1]], [["ms", "L1"], ["lc", k - 1]]][v2 % 4] if explicit else []
+            sp = rsp
+            for c in cs:
+                if c[0] == "ms":
+                    sp = c[1]
+            return dict(how=how, casts=cs, space=sp)
+        # a cast chained on the end of path A: exactly ONE cast that ends in L1, so that it is materialised itself. (A longer
+        # tail - also the L1 cast set-memory-space would add - leaves a dead cast in place on A's end value, which
+        # realize-memref-casts counts as a reading and writing user of A: known weakness outside this relaxation.)
+        if info["space"] == "L1":
+            if is_dyn(i):
+                return None
+            cs = [["lc", k - 1]]
+        else:
+            cs = [["ms", "L1"]]
+        return dict(how=how, casts=cs, space="L1")
+
+    def resolve(e, s):
+        """Final kind of op statement s in epoch e and, per input, the alt plan that is expressible (None = plain ref).
+        An op that would be an opaque test.op with or without its alt refs writes all operands: it keeps no alt ref."""
+        _, kind, ins, outs = s
+        plans = [alt_plan(e, ref_root(x), x[2]) if isinstance(x, list) else None for x in ins]
+        sp_a = [pinfo[e][ref_root(x)]["space"] for x in ins + outs]
+        sp_b = [(pl["space"] if pl else pinfo[e][ref_root(x)]["space"]) for x, pl in zip(ins, plans)] + [pinfo[e][ref_root(x)]["space"] for x in outs]
+        ka, kb = coerce(kind, sp_a), coerce(kind, sp_b)
+        if ka == "test" or kb == "test":
+            return ka, kb, [None] * len(ins)
+        return ka, kb, plans
+
+    def writes_of(e, stmts):
+        w = set()
+        for s in stmts:
+            if s[0] == "op":
+                ka, _, _ = resolve(e, s)
+                w.update(ref_root(x) for x in s[3])
+                if ka == "test":
+                    w.update(ref_root(x) for x in s[2])
             else:
-                kind = {"test": "linalg", "dart_sched": "dart_op"}.get(kind, kind)
+                w |= writes_of(e, s[1])
+        return w
+
+    # last top-level statement of each epoch that writes root i through path A (-1: none)
+    lastw = []
+    for e, ep in enumerate(r["epochs"]):
+        lw = [-1] * nroots
+        for t, s in enumerate(ep["stmts"]):
+            for i in writes_of(e, [s]):
+                lw[i] = t
+        lastw.append(lw)
+
+    def alt_ok(e, t, i):
+        """May root i be read through another path in top-level statement t of epoch e? Every writer through path A must lie
+        in an earlier top-level statement, over the whole life of A's value."""
+        life = pinfo[e][i]["life"]
+        if life == "stmt" or lastw[e][i] >= t:
+            return False
+        if life == "prog":
+            return all(lastw[e2][i] < 0 for e2 in range(e + 1, len(lastw)))
+        return True
+
+    bare_used = [False] * nroots
+    gstmt = [0]  # number of the current top-level statement, counted over all epochs
+    a_reads: dict[str, list] = {}
+    a_writes: dict[str, list] = {}
+    alts: list = []
+
+    def emit_alt(i, plan, a_val, path, out, pad, iv):
+        if plan["how"] == "bare":
+            nm, rshape, sp = root_val[i]
+            if nm is None:
+                nm = fresh("gg")
+                out.append(f'{pad}{nm} = "memref.get_global"() <{{name = @g{i}}}> : () -> {mtype(rshape, elt, None, sp)}')
+            return nm, mtype(rshape, elt, None, sp), 0, sp, None
+        if plan["how"] == "sub":
+            return emit_path(i, dict(sv=path.get("sv", 0), casts=plan["casts"]), out, pad, iv, force_full=True)
+        cur, cur_t, nc, sp, layout = a_val
+        oshape = (["?"] + list(shape[1:])) if is_dyn(i) else shape
+        for c in plan["casts"]:
+            if c[0] == "ms":
+                nsp, nl, opn = c[1], layout, "memref.memory_space_cast"
+            else:
+                nl = None if c[1] < 0 else lay_texts[c[1] % len(lay_texts)]
+                nsp, opn = sp, "snax.layout_cast"
+            new_t = mtype(oshape, elt, nl, nsp)
+            new = fresh("c")
+            out.append(f'{pad}{new} = "{opn}"({cur}) : ({cur_t}) -> {new_t}')
+            cur, cur_t, layout, sp = new, new_t, nl, nsp
+            nc += 1
+        return cur, cur_t, nc, sp, layout
+
+    def emit_op(s, vals, out, pad, in_loop, e=0, t=0, paths=None, iv=None):
+        _, kind, ins, outs = s
+        ka, kb, plans = resolve(e, s)
+        chosen = []
+        for x, pl in zip(ins, plans):
+            i = ref_root(x)
+            ok = pl is not None and alt_ok(e, t, i)
+            if ok and pl["how"] == "bare":
+                if root_val[i][0] is not None and bare_used[i]:
+                    pl = alt_plan(e, i, x[2] - (x[2] % 3))  # the bare root has been read once: take a subview instead
+                    ok = pl is not None and pl["how"] == "sub"
+                elif root_val[i][0] is not None:
+                    bare_used[i] = True
+            chosen.append(pl if ok else None)
+        honoured = any(c is not None for c in chosen)
+        # the kind is fixed by the spaces of the operands really used (neither variant is an opaque op if an alt ref survives)
+        kind = coerce(kind, [(c["space"] if c else pinfo[e][ref_root(x)]["space"]) for x, c in zip(ins, chosen)]
+                      + [pinfo[e][ref_root(x)]["space"] for x in outs]) if honoured else ka
+        iv_ = []
+        for x, c in zip(ins, chosen):
+            i = ref_root(x)
+            if c is None:
+                iv_.append(vals[i][:3])
+                a_reads.setdefault(vals[i][0], []).append(gstmt[0])
+            else:
+                bv = emit_alt(i, c, vals[i], paths[i % len(paths)], out, pad, iv)
+                iv_.append(bv[:3])
+                alts.append((vals[i][0], gstmt[0]))
+                b.alt_reads += 1
+                b.features.add("alt-read:" + c["how"] + (":loop" if in_loop else ""))
+        ov_ = [vals[ref_root(v)][:3] for v in outs]
+        for v in outs:
+            a_writes.setdefault(vals[ref_root(v)][0], []).append(gstmt[0])
+        if kind == "test":
+            for x in ins:
+                a_writes.setdefault(vals[ref_root(x)][0], []).append(gstmt[0])
+            for v in outs:
+                a_reads.setdefault(vals[ref_root(v)][0], []).append(gstmt[0])
         tag = b.ntags
         b.ntags += 1
         for v, _, nc in iv_:
@@ -461,9 +680,10 @@ def build(r) -> Built:
             for v, _, nc in ov_:
                 use_count[v][0] += 1
 
-    def emit_stmts(stmts, vals, paths, out, ind, iv, stmt_def_done):
+    def emit_stmts(stmts, vals, paths, out, ind, iv, stmt_def_done, e=0, t=None):
         pad = "  " * ind
-        for s in stmts:
+        for k_, s in enumerate(stmts):
+            tt = k_ if t is None else t  # number of the enclosing top-level statement of the epoch
             local = dict(vals)
             if not stmt_def_done:
                 # paths with def = "stmt": (re)defined in front of this op / at the top of this loop's body
@@ -473,7 +693,7 @@ def build(r) -> Built:
             if s[0] == "op":
                 for i in need:
                     local[i] = emit_path(i, paths[i % len(paths)], out, pad, iv)
-                emit_op(s, local, out, pad, iv is not None)
+                emit_op(s, local, out, pad, iv is not None, e, tt, paths, iv)
             else:
                 lid = b.nloops
                 b.nloops += 1
@@ -484,13 +704,15 @@ def build(r) -> Built:
                 body: list[str] = []
                 for i in need:
                     local[i] = emit_path(i, paths[i % len(paths)], body, pad + "  ", niv)
-                emit_stmts(s[1], local, paths, body, ind + 1, niv, True)
+                emit_stmts(s[1], local, paths, body, ind + 1, niv, True, e, tt)
                 out.append(f'{pad}"scf.for"(%zero, {ub}, %one) ({{')
                 out.append(f"{pad}^bb0({niv}: index):")
                 out.extend(body)
                 out.append(f'{pad}  "scf.yield"() : () -> ()')
                 out.append(f"{pad}}}) : (index, index, index) -> ()")
                 b.features.add("loop" + (":nested" if iv is not None else ""))
+            if t is None:
+                gstmt[0] += 1
 
     body: list[str] = []
     top_paths: list[str] = []
@@ -502,7 +724,7 @@ def build(r) -> Built:
             top_paths.append(f'    {d1} = "memref.memory_space_cast"({nm}) : ({t0}) -> {mtype(shape, elt, None, "L1")}')
             top_paths.append(f'    {fresh("d")} = "snax.layout_cast"({d1}) : ({mtype(shape, elt, None, "L1")}) -> {mtype(shape, elt, lay_texts[0], "L1")}')
             b.features.add("dead-casts")
-    for ep in r["epochs"]:
+    for e_, ep in enumerate(r["epochs"]):
         paths = ep["paths"]
         used = used_roots(ep["stmts"])
         vals = {}
@@ -515,7 +737,13 @@ def build(r) -> Built:
                 vals[i] = emit_path(i, p, body, "    ", None)
             else:
                 vals[i] = None  # defined per statement
-        emit_stmts(ep["stmts"], vals, paths, body, 2, None, False)
+        emit_stmts(ep["stmts"], vals, paths, body, 2, None, False, e_)
+
+    for a_ssa, g in alts:
+        if any(w < g for w in a_writes.get(a_ssa, [])) and any(rd >= g for rd in a_reads.get(a_ssa, [])):
+            b.alt_between += 1
+    if b.alt_between:
+        b.features.add("alt-read:after-writer-and-not-after-last-reader-of-the-first-path")
 
     for v, (nr, nw, nc) in use_count.items():
         b.max_chain = max(b.max_chain, nc)
